@@ -67,6 +67,10 @@ impl Case {
             Case::Cmp(_) => "cmp",
         }
     }
+    /// does the case execute library code on real (uncontrolled) thread pools whose scheduling it only observes?
+    pub fn observes_real_threads(&self) -> bool {
+        matches!(self, Case::Thr(crate::thr::Case::Rayon { .. }) | Case::Thr(crate::thr::Case::PoolRepeat { .. }) | Case::Thr(crate::thr::Case::NetBatch { .. }))
+    }
     pub fn size(&self) -> usize {
         match self {
             Case::Thr(c) => c.size(),
@@ -102,7 +106,7 @@ const PT_RULE: &str = "a case = generated consist/locomotive parameters (aux loa
 
 const TRK_REAL: &[&str] = &["altrios_core::track::{PathTpc::extend/finish, insert_speed, TrainParams::speed_set_applies, Link} (real code)", "SerdeAPI save/load of the half-built PathTpc (real code)"];
 const TRK_STUB: &[&str] = &["storage: in-memory byte buffers behind a simulated Read", "train: TrainParams only (no train model in this world)"];
-const TRK_RULE: &str = "a case = generated network (corridor with sidings, flips, 0-6 restrictions per link on a coarse grid incl. nested/abutting/duplicate-bound/zero-length, head/tail-end sets, gated sets, per-train-type sets, 2-6 elevation points, headings incl. wrap-around, catenary incl. zero-power sections) + contiguous route + train + seeded history of extend calls (partition, empty extensions, reloads, refused extensions); C02 / C13: 0.04 % of the runs are train simulations of world trn whose own path profile is judged after every extend_path; distinct = distinct hash of (scenario class, fault kinds fired, probes hit); non-trivial = route of >= 2 links or profile of >= 3 points";
+const TRK_RULE: &str = "a case = generated network (corridor with sidings, flips, 0-6 restrictions per link on a coarse grid incl. nested/abutting/duplicate-bound/zero-length, head/tail-end sets, gated sets, per-train-type sets, 2-6 elevation points, headings incl. wrap-around, catenary incl. zero-power sections) + contiguous route + train + seeded history of extend calls (partition, empty extensions, reloads, refused extensions) + (12 %) the train's type dropped from one route link's per-type map (the extension must be refused); C02 / C13: 0.04 % of the runs are train simulations of world trn whose own path profile is judged after every extend_path; distinct = distinct hash of (scenario class, fault kinds fired, probes hit); non-trivial = route of >= 2 links or profile of >= 3 points";
 
 const VAL_REAL: &[&str] = &["altrios_core::track::{Network, Link}::validate and every ObjState::validate below it (real code)", "Network::from_yaml / from_json / from_reader / from_file incl. legacy-layout fallback (real code, real files in a scratch directory)"];
 const VAL_STUB: &[&str] = &["reader: simulated Read with short reads, EINTR, hard error and early EOF at seeded bytes"];
@@ -114,7 +118,7 @@ const MASS_RULE: &str = "a case = target (component / locomotive with or without
 
 const TRN_REAL: &[&str] = &["TrainSimBuilder, SetSpeedTrainSim, SpeedLimitTrainSim (step, extend_path, walk, walk_timed_path), BrakingPoints, FricBrake, TrainRes/Strap, PathTpc, Consist and everything below it (real code)", "SerdeAPI save/load of the whole simulation mid-run (real code)"];
 const TRN_STUB: &[&str] = &["dispatcher -> train authority channel: simulated (early / just in time / late / batched / empty deliveries)", "clock: the simulator issues every step; dt per run in {0.5, 1, 2} s, irregular trace stamps for set-speed runs", "pyo3 layer / run_speed_limit_train_sims: not run"];
-const TRN_RULE: &str = "a case = generated network (0-3 sidings, grades up to the bound, 0-4 extra restrictions per link, very short to very long links) + route + generated train (1-3 car types, 5-150 cars, 2-6 units incl. generated ones and occasionally the shipped hybrid unit, optional mass/length overrides, optional initial front offset, friction-brake ramp-up 0 s or 5-60 s) + optional 'heavy train behind one or two units' scenario (on a long descent, or on an ordinary line with grades at the bound and mostly 2 s steps: stalls) + driver (set-speed trace via shipped walk or simulator steps; speed-limited via shipped walk, walk_timed_path or simulator steps with an authority-delivery schedule) + crash/restore and interval-change points (optionally with a unit given an interval of its own first) + rolling-start / exact-landing set-speed traces + a run picked up by walk() after steps by hand + restriction sets gated at / one off the train's own axle count (10-35 % of the cases) + car types listed with zero cars (12 %) + consists completed after construction through set_loco_vec (10 %); distinct = distinct hash of (scenario class, fault kinds fired, probes hit); non-trivial = at least 5 (set-speed) / 20 (speed-limited) executed steps";
+const TRN_RULE: &str = "a case = generated network (0-3 sidings, grades up to the bound, 0-4 extra restrictions per link, very short to very long links) + route + generated train (1-3 car types, 5-150 cars, 2-6 units incl. generated ones and occasionally the shipped hybrid unit, optional mass/length overrides, optional initial front offset, friction-brake ramp-up 0 s or 5-60 s) + optional 'heavy train behind one or two units' scenario (on a long descent, or on an ordinary line with grades at the bound and mostly 2 s steps: stalls) + driver (set-speed trace via shipped walk or simulator steps; speed-limited via shipped walk, walk_timed_path or simulator steps with an authority-delivery schedule) + crash/restore and interval-change points (optionally with a unit given an interval of its own first) + rolling-start / exact-landing set-speed traces, 8 % with a time datum of their own + a run picked up by walk() after steps by hand + restriction sets gated at / one off the train's own axle count (10-35 % of the cases) + car types listed with zero cars (12 %) + consists completed after construction through set_loco_vec (10 %); distinct = distinct hash of (scenario class, fault kinds fired, probes hit); non-trivial = at least 5 (set-speed) / 20 (speed-limited) executed steps";
 
 const DSP_REAL: &[&str] = &["make_est_times (real code, incl. thousands of SpeedLimitTrainSim steps per train)", "run_dispatch with its own scheduler, TrainDisp advance / rewind / free-path search / deadlock check (real code)", "observer hook H3/H4 reading link_disp_auths, links_blocked, TrainDisp views after every train move", "walk_timed_path protocol on the returned plans (sampled)"];
 const DSP_STUB: &[&str] = &["the dispatcher's scheduler is NOT replaced: its schedule space is sampled through departure times (incl. ties), train order, lengths, directions, topology and lockouts", "no fault is injected into the dispatcher (it has no I/O); its own rewinds / re-routes are the fault-like events, counted by probes"];
@@ -122,7 +126,7 @@ const DSP_RULE: &str = "a case = generated corridor (1-9 sidings of 1-3 links pe
 
 const THR_REAL: &[&str] = &["LocomotiveSimulationVec::walk and every LocomotiveSimulation::walk/step under it (real code)", "the worlds trn / dsp / trk / val / pt re-executed under different RandomState keys, rayon pool sizes and thread histories (real code)", "rayon branch of LocomotiveSimulationVec::walk in local pools of 1, 2, 4, 16 threads (real code, uncontrolled threads: observation, labelled as such)"];
 const THR_STUB: &[&str] = &["rayon's pool in the controlled runs: executor seam H2 reproducing try_for_each's contract on shuttle threads (W workers claim from a shared queue; after an error no new claims, in-flight elements finish)", "thread scheduler: shuttle Random / PCT, seeded", "getrandom(2): interposed, RandomState keys derived from the case"];
-const THR_RULE: &str = "a case = (a) batch of 1-12 generated locomotive simulations (some failing at a seeded step) + worker count 1-16 + scheduler (Random or PCT depth 2-4) + 24 (quick) / 60 (thorough) seeded schedules, or (b) a case of world trn/dsp/trk/val executed under hash keys A, A, B, or (c) a batch on a real rayon pool, or (d) a case of world pt/trn/dsp executed outside any pool and inside private rayon pools of 1, 2-4, 5-16 threads, or (e) a case of world pt/trn/dsp/trk executed on a fresh thread, after a different case on the same thread, and twice on one thread, or (f) Network::set_speed_set_for_train_type on a chain of 40-40000 links with 0-5 failing links, outside any pool and twice inside private pools of 1, 2-4, 5-16 threads; distinct = distinct hash of (scenario class, fault kinds, probes, first 8 distinct claim orders seen); non-trivial = at least 2 elements and 2 workers (a, c) / the inner case's own rule (b)";
+const THR_RULE: &str = "a case = (a) batch of 1-12 generated locomotive simulations (some failing at a seeded step) + worker count 1-16 + scheduler (Random or PCT depth 2-4) + 24 (quick) / 60 (thorough) seeded schedules, or (b) a case of world trn/dsp/trk/val executed under hash keys A, A, B (trk cases for this purpose mostly with per-train-type restriction maps, half of them with the train's type missing on one link), or (c) a batch on a real rayon pool, or (d) a case of world pt/trn/dsp executed outside any pool and inside private rayon pools of 1, 2-4, 5-16 threads, or (e) a case of world pt/trn/dsp/trk executed on a fresh thread, after a different case on the same thread, and twice on one thread, or (f) Network::set_speed_set_for_train_type on a chain of 40-40000 links with 0-5 failing links, outside any pool and twice inside private pools of 1, 2-4, 5-16 threads; distinct = distinct hash of (scenario class, fault kinds, probes, first 8 distinct claim orders seen); non-trivial = at least 2 elements and 2 workers (a, c) / the inner case's own rule (b)";
 
 const IO_REAL: &[&str] = &["SerdeAPI::{to_yaml,to_json,to_bincode,from_*,from_reader,to_file,from_file,init} of every exported type (real code)", "LocomotiveSimulation / ConsistSimulation / SetSpeedTrainSim / SpeedLimitTrainSim stepping before and after the reload (real code)", "real files in a private scratch directory (file channel)"];
 const IO_STUB: &[&str] = &["reader: simulated Read with short reads, EINTR, hard error at a seeded byte", "crash during a save: modelled after the fact by truncating the written bytes (exercised, not armed: nobody promises atomic saves)"];
